@@ -68,7 +68,8 @@ def run(ctx):
                 "result kinds)")
     ctx.prove()
     ctx.partial.append("handler/event/tick semantics are modelled as far as the suite drives them (ids, statuses, payload "
-                       "ids, sequence numbers); subscribe_events/stream_ticks are not driven")
+                       "ids, sequence numbers); subscribe_events is not driven; stream_ticks only by the two-mode monitor (a stream "
+                       "left open across appends through the same store), not modelled")
     ctx.trusted.append("sqlite3: a closed connection raises ProgrammingError on use; committed data is visible to every "
                        "later connection (exercised on real database files, not modelled)")
     S.check_pools()
@@ -105,6 +106,18 @@ def run(ctx):
                         dict(kind="implementation-monitor", ops=S.jsonable(small), original_ops=S.jsonable(ops),
                              detail=S.jsonable(detail), single_connection=S.jsonable(a), per_call=S.jsonable(b),
                              replay_hint="bin/check C21 --replay <this file> re-executes `ops` in both modes"))
+        # an open tick stream interleaved with appends through the same store (monitor only: the two modes must agree)
+        nsi, si_fails = ctx.n(40, 400), []
+        for i in range(nsi):
+            f2, facts2 = K.stream_interleave_case(rng, dbdir, "c21")
+            ctx.count(1, ("stream-interleave", facts2["n"], facts2["k"], facts2["pos"]))
+            for w in f2:
+                si_fails.append((w, facts2))
+        ctx.programs += nsi
+        ctx.suite("connstore.stream_interleave", cases=nsi, failures=len(si_fails))
+        for w, facts2 in si_fails[:2]:
+            ctx.violation("C21 fails on the real code: " + w, dict(kind="implementation-monitor", scenario="stream_ticks interleaved with append_tick",
+                                                                 input=facts2))
     finally:
         shutil.rmtree(dbdir, ignore_errors=True)
     res = ctx.run_cases("connstore", K.header(), exprs, shard=25)
